@@ -259,6 +259,9 @@ pub enum GroupInfoEdit {
     EpochResigned(SignatureSecretKey),
     /// GroupInfo untouched; the GroupSecrets carry an unrelated path secret (added when there was none)
     UnrelatedPathSecret,
+    /// Nothing inside changes, but the entry is addressed to another key package of the same joiner: (encoded KeyPackage,
+    /// its init public key). That key package is not the one the commit added.
+    AddressedToOtherKeyPackage(Vec<u8>, Vec<u8>),
 }
 
 pub struct ResealedWelcome {
@@ -342,7 +345,7 @@ pub fn reseal_welcome(suite: u16, csp: &VSuite, welcome: &[u8], lookup: &dyn Fn(
     let mut epoch = c_epoch;
     let mut resign: Option<&SignatureSecretKey> = None;
     match edit {
-        GroupInfoEdit::None | GroupInfoEdit::UnrelatedPathSecret => {}
+        GroupInfoEdit::None | GroupInfoEdit::UnrelatedPathSecret | GroupInfoEdit::AddressedToOtherKeyPackage(..) => {}
         GroupInfoEdit::SignatureBit(i) => {
             let n = signature.len();
             signature[i % n] ^= 1 << (i % 8);
@@ -375,6 +378,16 @@ pub fn reseal_welcome(suite: u16, csp: &VSuite, welcome: &[u8], lookup: &dyn Fn(
     let mut gi2 = tbs;
     put_opaque(&mut gi2, &signature);
     let egi2 = csp.aead_seal(&es.welcome_key, &gi2, None, &es.welcome_nonce).ok()?;
+    // KeyPackageRef = RefHash("MLS 1.0 KeyPackage Reference", KeyPackage)
+    let (pk, new_member) = match edit {
+        GroupInfoEdit::AddressedToOtherKeyPackage(kp, init_pk) => {
+            let mut input = vec![];
+            put_opaque(&mut input, b"MLS 1.0 KeyPackage Reference");
+            put_opaque(&mut input, kp);
+            (HpkePublicKey::from(init_pk.clone()), s.hash(&input))
+        }
+        _ => (pk, new_member),
+    };
     let ct = csp.hpke_seal(&pk, &info(&egi2), None, &gs).ok()?;
     let mut entry = vec![];
     put_opaque(&mut entry, &new_member);
